@@ -51,7 +51,9 @@ def observe(r, op, scratch):
     """Returns (value for comparison, list of live arrays to re-hash at the end)."""
     if op == "times":
         t = r.get_times()
-        return np.array(t), [t] if False else []     # the cached time array is shifted in place by design: not re-hashed
+        tp = np.array(r.times, dtype="datetime64[ms]")     # the public property (datetime objects) shows the same instants
+        # (the cached time array is shifted in place by design: not re-hashed)
+        return np.concatenate([np.array(t).astype("datetime64[ms]"), tp]), []
     if op == "lonlat":
         lo, la = r.get_lonlat()
         return (lo, la), [lo, la]
@@ -192,6 +194,8 @@ def run(res, tier, seed):
                    (2, ["mask", "lonlat", "mask", "qual", "calibrated", "mask", "angles", "mask", "dataset", "mask", "lonlat"]),
                    # POD with the clock-drift correction: the angles asked first, then after the coordinates, then again
                    (0, ["angles", "lonlat", "angles", "times", "angles", "dataset", "angles"]),
+                   # POD with the clock-drift correction: the times (array and property) before and after the coordinates
+                   (0, ["times", "lonlat", "times", "dataset", "times", "angles", "times"]),
                    # nearest element set older than the limit: repeated angle requests around other accessors
                    (len(configs) - 1, ["angles", "angles", "lonlat", "angles", "save", "angles"])]
         for h in range(nh + len(scripts)):
